@@ -43,7 +43,12 @@ WithDfs(P) == {<<"conde", << <<DfsSpin>>, BranchOf(p, "b2") >> >> : p \in P}
               \cup {<<"conde", << BranchOf(p, "b1"), <<DfsCondSpin("x")>>, BranchOf(<<>>, "b3") >> >> : p \in P}
 FinScope == Conde2(FinPrefixes) \cup Conde3(FinPrefixes) \cup Nested(FinPrefixes) \cup Under(FinPrefixes)
             \cup WithDfs(FinPrefixes)
-GrowScope == Conde2(AllPrefixes) \cup Nested(AllPrefixes)
+(* a disjunction whose FIRST branch succeeds at once and whose rest is still lazy (always, conde { true, fresh.. }),
+   followed by a goal: the continuations of its answers must be interleaved, also when the continuation of the
+   first answer never ends *)
+TrueFirst == <<"conde", << << <<"succeed">> >>, << <<"fresh", <<>>, << <<"succeed">> >> >> >> >> >>
+UnderLazyTail(P) == {<<"conj", <<h, g>> >> : h \in {Always, TrueFirst}, g \in Conde2(P)}
+GrowScope == Conde2(AllPrefixes) \cup Nested(AllPrefixes) \cup UnderLazyTail({<<>>, <<Never>>, <<Always>>})
              \cup {<<"loop", << <<g>> >> >> : g \in Conde2({<<>>, <<Two>>})}
 
 (* thorough tier: more prefixes, three full branches, two levels of nesting *)
@@ -73,7 +78,11 @@ BranchesOf(g) ==
                           ELSE IF cl[1][1] = "conde" THEN BranchesOf(cl[1]) @@ Go(i + 1)
                           ELSE Go(i + 1)
      IN Go(1)
-  ELSE IF g[1] = "conj" THEN BranchesOf(g[2][Len(g[2])])
+  ELSE IF g[1] = "conj" THEN
+     (* h, conde { A, B } is conde { [h, A], [h, B] }: a branch on its own runs behind the same prefix *)
+     LET inner == BranchesOf(g[2][Len(g[2])])
+         pre == SubSeq(g[2], 1, Len(g[2]) - 1)
+     IN [b \in DOMAIN inner |-> <<"conj", pre \o <<inner[b]>> >>]
   ELSE IF g[1] = "loop" THEN BranchesOf(g[2][1][1])
   ELSE [x \in {} |-> x]
 =============================================================================
